@@ -114,8 +114,8 @@ pub fn run_t<V: Scalar + Hash + PartialEq>(case: &Case, full: bool, fill: u8, ou
         tick();
         let name = op[0].as_str();
         let a1 = op.get(1).map(|s| int(s)).unwrap_or(0);
-        let is_mut = matches!(name, "ins" | "rem");
-        if name == "reopen" {
+        let is_mut = matches!(name, "ins" | "rem" | "init");
+        if name == "reopen" || name == "init" {
             h = None;
         }
         let r: Option<String> = guarded(|| {
@@ -148,6 +148,10 @@ pub fn run_t<V: Scalar + Hash + PartialEq>(case: &Case, full: bool, fill: u8, ou
                 let b = match name {
                     "ins" => t.insert(V::from_i(a1)),
                     "rem" => t.remove(&V::from_i(a1)),
+                    "init" => {
+                        t.initialize(a1 as u32);
+                        true
+                    }
                     _ => unreachable!(),
                 };
                 (if b { "T" } else { "F" }).to_string()
